@@ -340,3 +340,155 @@ mod playback {
     use super::*;
     include!("/verif/.cache/playback/arithmetic.rs");
 }
+
+// ---------------------------------------------------------------- C09: try_or / try_and contracts
+// `try_or` is generic over `impl FnMut`, so the closure is a counting one: no Expr involved.
+// Functional contract (substituted by the Verus extractor at `.try_or(|| rhs.resolve(ctx))`):
+//   v.try_or(f) == match v { Null | Boolean(false) => f().map_err(ValueError::Or), v => Ok(v) }
+use crate::compiler::kani_support::{make_out, Out};
+use crate::compiler::ExpressionError as EE;
+
+fn or_case(recv: Value, falsy: bool, out: Out) {
+    let mut calls: u8 = 0;
+    let r = recv.try_or(|| {
+        calls += 1;
+        make_out(out)
+    });
+    if falsy {
+        assert!(calls == 1, "C09.try_or.falsy_calls_once: a null/false receiver evaluates the rhs exactly once");
+        let ok = match (&r, out) {
+            (Ok(Value::Integer(x)), Out::Int(i)) => *x == i,
+            (Ok(Value::Null), Out::Null) => true,
+            (Ok(Value::Boolean(x)), Out::Bool(b)) => *x == b,
+            (Err(ValueError::Or(EE::Abort { .. })), Out::Abort) => true,
+            (Err(ValueError::Or(EE::Return { value: Value::Integer(x), .. })), Out::Return(i)) => *x == i,
+            (Err(ValueError::Or(EE::Error { .. })), Out::Error) => true,
+            _ => false,
+        };
+        assert!(ok, "C09.try_or.falsy_result: the result is the rhs outcome (errors wrapped in ValueError::Or)");
+    } else {
+        assert!(calls == 0, "C09.try_or.truthy_no_call: any other receiver never evaluates the rhs");
+    }
+    core::mem::forget(r);
+}
+
+// @obl C09.try_or.falsy_calls_once: a null/false receiver evaluates the rhs exactly once
+// @obl C09.try_or.falsy_result: the result is the rhs outcome (errors wrapped in ValueError::Or)
+// @unit tier=q prop=C09 fn=try_or
+#[kani::proof]
+#[kani::unwind(2)]
+fn k_try_or_null_int() {
+    or_case(Value::Null, true, Out::Int(kani::any()));
+}
+
+// @obl C09.try_or.falsy_calls_once: a null/false receiver evaluates the rhs exactly once
+// @obl C09.try_or.falsy_result: the result is the rhs outcome (errors wrapped in ValueError::Or)
+// @unit tier=q prop=C09 fn=try_or
+#[kani::proof]
+#[kani::unwind(2)]
+fn k_try_or_null_abort() {
+    or_case(Value::Null, true, Out::Abort);
+}
+
+// @obl C09.try_or.falsy_calls_once: a null/false receiver evaluates the rhs exactly once
+// @obl C09.try_or.falsy_result: the result is the rhs outcome (errors wrapped in ValueError::Or)
+// @unit tier=q prop=C09 fn=try_or
+#[kani::proof]
+#[kani::unwind(2)]
+fn k_try_or_null_return() {
+    or_case(Value::Null, true, Out::Return(kani::any()));
+}
+
+// @obl C09.try_or.falsy_calls_once: a null/false receiver evaluates the rhs exactly once
+// @obl C09.try_or.falsy_result: the result is the rhs outcome (errors wrapped in ValueError::Or)
+// @unit tier=q prop=C09 fn=try_or
+#[kani::proof]
+#[kani::unwind(2)]
+fn k_try_or_false_int() {
+    or_case(Value::Boolean(false), true, Out::Int(kani::any()));
+}
+
+// @obl C09.try_or.falsy_calls_once: a null/false receiver evaluates the rhs exactly once
+// @obl C09.try_or.falsy_result: the result is the rhs outcome (errors wrapped in ValueError::Or)
+// @unit tier=q prop=C09 fn=try_or
+#[kani::proof]
+#[kani::unwind(2)]
+fn k_try_or_false_abort() {
+    or_case(Value::Boolean(false), true, Out::Abort);
+}
+
+// @obl C09.try_or.falsy_calls_once: a null/false receiver evaluates the rhs exactly once
+// @obl C09.try_or.falsy_result: the result is the rhs outcome (errors wrapped in ValueError::Or)
+// @unit tier=q prop=C09 fn=try_or
+#[kani::proof]
+#[kani::unwind(2)]
+fn k_try_or_false_return() {
+    or_case(Value::Boolean(false), true, Out::Return(kani::any()));
+}
+
+// @obl C09.try_or.truthy_no_call: any other receiver never evaluates the rhs
+// @unit tier=q prop=C09 fn=try_or
+#[kani::proof]
+#[kani::unwind(2)]
+fn k_try_or_true() {
+    or_case(Value::Boolean(true), false, Out::Abort);
+}
+
+// @obl C09.try_or.truthy_no_call: any other receiver never evaluates the rhs
+// @unit tier=q prop=C09 fn=try_or
+#[kani::proof]
+#[kani::unwind(2)]
+fn k_try_or_int() {
+    or_case(Value::Integer(kani::any()), false, Out::Abort);
+}
+
+// @obl C09.try_or.truthy_no_call: any other receiver never evaluates the rhs
+// @unit tier=q prop=C09 fn=try_or
+#[kani::proof]
+#[kani::unwind(2)]
+fn k_try_or_float() {
+    or_case(flt(any_non_nan()), false, Out::Abort);
+}
+
+// @obl C09.try_or.truthy_no_call: any other receiver never evaluates the rhs
+// @unit tier=q prop=C09 fn=try_or
+#[kani::proof]
+#[kani::unwind(2)]
+fn k_try_or_bytes() {
+    or_case(Value::Bytes(bytes::Bytes::from_static(b"")), false, Out::Abort);
+}
+
+// @unit tier=q prop=C09 fn=try_or
+#[kani::proof]
+#[kani::unwind(2)]
+fn k_try_or_truthy_identity() {
+    let i: i64 = kani::any();
+    let r = int(i).try_or(|| make_out(Out::Abort));
+    assert!(as_int(&r) == Some(i), "C09.try_or.truthy_result_int: a non-null, non-false receiver is returned unchanged (integer)");
+    let r2 = Value::Boolean(true).try_or(|| make_out(Out::Abort));
+    assert!(as_bool(&r2) == Some(true), "C09.try_or.truthy_result_true: `true` is returned unchanged");
+    fin!(r, r2);
+}
+
+// @unit tier=q prop=C09 fn=try_and
+#[kani::proof]
+#[kani::unwind(2)]
+#[kani::stub(regex::Regex::new, crate::compiler::kani_support::stub_regex_new)]
+fn k_try_and_table() {
+    let a: bool = kani::any();
+    let b: bool = kani::any();
+    let i: i64 = kani::any();
+    let r1 = Value::Boolean(a).try_and(Value::Boolean(b));
+    assert!(as_bool(&r1) == Some(a && b), "C09.try_and.bool_bool: boolean && boolean is the conjunction");
+    let r2 = Value::Null.try_and(Value::Boolean(b));
+    assert!(as_bool(&r2) == Some(false), "C09.try_and.null_lhs: null && x is false");
+    let r3 = Value::Boolean(a).try_and(Value::Null);
+    assert!(as_bool(&r3) == Some(false), "C09.try_and.null_rhs: boolean && null is false");
+    let r4 = Value::Null.try_and(Value::Integer(i));
+    assert!(as_bool(&r4) == Some(false), "C09.try_and.null_any: null && any value is false");
+    let r5 = Value::Boolean(a).try_and(Value::Integer(i));
+    assert!(matches!(&r5, Err(ValueError::And(..))), "C09.try_and.type_error: boolean && non-boolean is an And type error, never a control-flow error");
+    let r6 = Value::Integer(i).try_and(Value::Boolean(b));
+    assert!(matches!(&r6, Err(ValueError::And(..))), "C09.try_and.type_error_lhs: non-boolean && x is an And type error");
+    fin!(r1, r2, r3, r4, r5, r6);
+}
